@@ -550,6 +550,15 @@ func runKeyless(w *world) {
 		"other":   fmt.Sprintf("www.theirs%d.example.com", seed),
 		"unbound": fmt.Sprintf("www.nobody%d.example.com", seed),
 	}
+	hosts["twin"] = hosts["bound"]
+	// the same token as client A under another client id (the subject is "v1:<id>:<token>")
+	a := w.cl["A"]
+	twinCert := &x509.Certificate{Subject: pki.MakeSubjectV1(7001+31, string(a.token.GetToken()))}
+	twinIdent, err := pki.ExtractCertificateIdentity(twinCert)
+	if err != nil || string(twinIdent.Token) != string(a.token.GetToken()) || twinIdent.ID == 7001 {
+		panic(fmt.Sprint("cannot build the twin identity: ", err))
+	}
+	twin := &client{name: "Atwin", token: &protocol.ClientToken{Token: twinIdent.Token}, node: twinIdent.NodeIdentity(), cert: twinCert, priv: a.priv}
 	algos := map[int]protocol.KeylessSignRequest_HashAlgorithm{
 		0: protocol.KeylessSignRequest_UNKNOWN, 1: protocol.KeylessSignRequest_SHA256,
 		2: protocol.KeylessSignRequest_SHA384, 3: protocol.KeylessSignRequest_SHA512, 9: 9,
@@ -565,6 +574,9 @@ func runKeyless(w *world) {
 		w.setHolder(hosts["other"], "B")
 		host := hosts[c.Caller]
 		caller := w.cl["A"]
+		if c.Caller == "twin" {
+			caller = twin
+		}
 		proof := w.pb.variant(c.Proof, host, i)
 		type obs struct {
 			Ok       bool              `json:"ok"`
